@@ -23,5 +23,8 @@ Example tie_C12_derived :
   /\ Src.h_numeric_calculate_cumulant_function = Expected.h_numeric_calculate_cumulant_function
   /\ einsum_superoperator_liouville_representation = ["...ba,ibc,...cd->...iad"]
   /\ Src.h_superoperator_liouville_representation = Expected.h_superoperator_liouville_representation
-  /\ Src.h_basis_expand = Expected.h_basis_expand.
+  /\ Src.h_basis_expand = Expected.h_basis_expand
+  /\ Src.h_basis_ggm_expand = Expected.h_basis_ggm_expand
+  /\ Src.h_basis_ggm_expand_cast = Expected.h_basis_ggm_expand_cast
+  /\ Src.h_basis_expand_cast = Expected.h_basis_expand_cast.
 Proof. repeat split; reflexivity. Qed.
